@@ -248,3 +248,25 @@ pub fn verify(call: &VerifyCall) -> CallResult {
         Ok(Ok(Err((c, m)))) => CallResult::Verdict(mk(false, &c, &m, None, None)),
     }
 }
+
+/// scratch paths contain the worker's pid; keep it out of the event-log digest
+pub fn mask_scratch(s: &str) -> String {
+    let mut out = String::new();
+    let mut rest = s;
+    while let Some(i) = rest.find("scsim-") {
+        out.push_str(&rest[..i + 6]);
+        rest = &rest[i + 6..];
+        let digits = rest.chars().take_while(|c| c.is_ascii_digit()).count();
+        out.push('#');
+        rest = &rest[digits..];
+        // and the worker's scratch tag: "/<tag>/"
+        if let Some(r2) = rest.strip_prefix('/') {
+            if let Some(j) = r2.find('/') {
+                rest = &r2[j..];
+            }
+        }
+    }
+    out.push_str(rest);
+    out
+}
+
